@@ -16,6 +16,8 @@ jobs = int(sys.argv[1])
 timeout = int(sys.argv[2])
 names = kani_run.select(sys.argv[3].split(","))
 single = (len(sys.argv) < 5 or sys.argv[4] == "single")
+hto = int(sys.argv[5]) if len(sys.argv) > 5 else 600
+tgt = sys.argv[6] if len(sys.argv) > 6 else "cal"
 out_path = os.path.join(kani_run.WORK, "calibration.jsonl")
 peak = {}
 stop = False
@@ -39,7 +41,7 @@ def poll():
 
 threading.Thread(target=poll, daemon=True).start()
 print(len(names), "harnesses", flush=True)
-out, wall, to, log = kani_run.run_kani(names, timeout, jobs=jobs, harness_timeout=600, target="cal", single_query=single)
+out, wall, to, log = kani_run.run_kani(names, timeout, jobs=jobs, harness_timeout=hto, target=tgt, single_query=single)
 stop = True
 res = kani_run.parse(out, names)
 with open(out_path, "a") as f:
